@@ -79,4 +79,5 @@ MUTANTS = [
     # the Request/Response pair is rebuilt from the same parser fields, the request event is fired once with the
     # last pair and carries identical method/path/qs/protocol/headers/body; nothing observable (events, bytes
     # written, closes) changes.  Verified by running it (`if False:` instead of `if sock in self._clients:`): the quick tier stays silent, as it should.
+    ('c13-parser-of-any-connection-used', 'C13', 'circuits/web/http.py', '        if sock in self._buffers:\n            parser = self._buffers[sock]\n        else:', '        if self._buffers:\n            parser = next(iter(self._buffers.values()))\n            self._buffers.setdefault(sock, parser)\n        else:'),
 ]
